@@ -236,7 +236,7 @@ class MibCompiler(object):
 
             lookedUpMibs.add((mibname, requested))
 
-            if mibname in parsedMibs:
+            if not requested and mibname in parsedMibs:
                 debug.logger & debug.flagCompiler and debug.logger('MIB %s already parsed' % mibname)
                 continue
 
@@ -398,6 +398,11 @@ class MibCompiler(object):
                     sourceFailed = True
 
             else:
+                if mibname in parsedMibs:
+                    # no file of that name, but the module is known from
+                    # another file
+                    continue
+
                 exc = error.PySmiError('MIB source %s not found' % mibname)
                 exc.mibname = mibname
                 debug.logger & debug.flagCompiler and debug.logger('no %s found everywhere' % mibname)
